@@ -29,6 +29,7 @@ import (
 	"github.com/bronlabs/bron-crypto/pkg/proofs/sigma/compiler"
 	"github.com/bronlabs/bron-crypto/pkg/proofs/sigma/compiler/fiatshamir"
 
+	"verif/cbor"
 	"verif/harness"
 	"verif/sim"
 )
@@ -477,6 +478,8 @@ var (
 	invMu    sync.Mutex
 	invCache = map[string][]wireMsg{}
 	invDigest = map[string]map[sim.ID]string{}
+	// invRootCalls: per inventory, "rand:<id>|<purpose>" -> Read calls made by the party's own goroutine
+	invRootCalls = map[string]map[string]int{}
 )
 
 // c04Seed: the cell runs of one scenario share one run seed, so that pass 2
@@ -494,8 +497,15 @@ func inventory(t *testing.T, sc *c04Scenario, seed sim.Seed) ([]wireMsg, error) 
 	var herr error
 	synctest.Test(t, func(t *testing.T) {
 		adv := newAdversary(0, nil)
-		rc := &harness.RunCtx{T: t, Seed: seed, Replay: nil, Params: map[string]string{}}
+		rc := &harness.RunCtx{T: t, Seed: seed, Replay: nil, Params: map[string]string{}, Aux: map[string]any{}, AuxMu: &sync.Mutex{}}
 		res := sc.run(rc, adv)
+		calls := map[string]int{}
+		for k, v := range rc.Aux {
+			if r, ok := v.(*sim.Rand); ok {
+				calls[k] = r.RootCalls
+			}
+		}
+		invRootCalls[key] = calls
 		if res.harnessErr != nil {
 			herr = res.harnessErr
 			return
@@ -593,6 +603,74 @@ func c04Cells(t *testing.T, sc *c04Scenario, seed sim.Seed, withAlts bool) ([]ma
 				}
 			}
 		}
+		// (c) One coin flipped: the run in which exactly one Read call of the corrupt party's
+		// own protocol-stage stream returned other bytes. Messages built before that draw are
+		// identical, later ones are valid for the changed draw. Replaying one such later message
+		// on its own, while everything earlier stays as in the unaltered run, breaks exactly the
+		// binding between a message and an earlier commitment to the same value (a proof for a
+		// fresh nonce under the same joint challenge, an opening for another commitment, ...).
+		if !sc.costlyRun && !sc.heavy {
+			stage := "A/proto"
+			if sc.name == "session" {
+				stage = "A/sess"
+			}
+			ncalls := invRootCalls[sc.name+seed.Hex()][fmt.Sprintf("rand:%d|%s", c, stage)]
+			var ks []int
+			if ncalls <= 16 {
+				for k := 1; k <= ncalls; k++ {
+					ks = append(ks, k)
+				}
+			} else {
+				for j := 0; j < 16; j++ {
+					ks = append(ks, 1+j*(ncalls-1)/15)
+				}
+			}
+			seenBody := map[string]bool{}
+			for _, k := range ks {
+				alog, err := altInventory(t, sc, seed, fmt.Sprintf("altcall%d.%d", c, k), map[string]string{"altcall": fmt.Sprintf("%d|%s|%d", c, stage, k)})
+				if err != nil {
+					return nil, err
+				}
+				find := func(w wireMsg) *wireMsg {
+					for i := range alog {
+						a := &alog[i]
+						if a.From == w.From && a.CID == w.CID && a.To == w.To && a.Broadcast == w.Broadcast {
+							return a
+						}
+					}
+					return nil
+				}
+				firstDiff := ""
+				for _, w := range log { // sorted by correlation id: round order
+					if w.From != c || !strings.HasPrefix(w.CID, "A-") || !inOnly(sc, w.CID) {
+						continue
+					}
+					if a := find(w); a != nil && string(a.Body) != string(w.Body) && (firstDiff == "" || stripNS(w.CID) < firstDiff) {
+						firstDiff = stripNS(w.CID)
+					}
+				}
+				for _, w := range log {
+					if w.From != c || !strings.HasPrefix(w.CID, "A-") || !inOnly(sc, w.CID) || firstDiff == "" || stripNS(w.CID) <= firstDiff {
+						continue
+					}
+					a := find(w)
+					if a == nil || string(a.Body) == string(w.Body) {
+						continue
+					}
+					bk := w.CID + fmt.Sprint(w.To) + string(a.Body)
+					if seenBody[bk] {
+						continue
+					}
+					seenBody[bk] = true
+					tm := tamper{CID: w.CID, To: w.To, Op: "replaymsg", Arg: hex.EncodeToString(a.Body)}
+					p := tm.params()
+					p["scenario"] = sc.name
+					p["corrupt"] = fmt.Sprint(c)
+					p["cell"] = fmt.Sprintf("%s|c=%s|%s|to=%s|(message)|replaymsg:own-single-draw#%d", sc.name, posLabel(c, ps), stripNS(w.CID), toLabel(w.To), k)
+					out = append(out, p)
+				}
+			}
+		}
 	}
 	return out, nil
 }
@@ -681,6 +759,53 @@ func RunC04Cell(rc *harness.RunCtx) (out harness.Outcome) {
 	}
 	cellLabel := rc.Params["cell"]
 	class, why := sc.classify(cellLabel)
+	if plan != nil && plan.Op == "replaymsg" && class == "bound" {
+		// a whole message replaced by another well-formed one: it is bound unless every
+		// leaf in which the two differ is a free one
+		if log, err := inventory(rc.T, sc, seed); err == nil {
+			for i := range log {
+				w := &log[i]
+				if w.From != c || w.CID != plan.CID || !(w.Broadcast || w.To == plan.To) {
+					continue
+				}
+				nb, err1 := hex.DecodeString(plan.Arg)
+				ta, err2 := cbor.ParseDeep(w.Body)
+				tb, err3 := cbor.ParseDeep(nb)
+				if err1 != nil || err2 != nil || err3 != nil {
+					break
+				}
+				seenNorm := map[string]bool{}
+				differ, allFree, whyFree := 0, true, ""
+				for _, l := range ta.Leaves() {
+					np := cbor.NormPath(l.Path) + ":" + kindClass(l.Node)
+					inst := "#1"
+					if !seenNorm[np] {
+						inst = "#0"
+						seenNorm[np] = true
+					}
+					o, ok := tb.Find(l.Path)
+					if ok && o.Node.Major == l.Node.Major && string(o.Node.Bytes) == string(l.Node.Bytes) && o.Node.Arg == l.Node.Arg {
+						continue
+					}
+					differ++
+					pos := "?"
+					if k := strings.Index(cellLabel, "|c="); k >= 0 {
+						pos = cellLabel[k+3 : k+5]
+					}
+					lc, lw := sc.classify(fmt.Sprintf("%s|c=%s|%s|to=%s|%s|replaced%s", sc.name, pos, stripNS(w.CID), toLabel(plan.To), np, inst))
+					if lc != "free" {
+						allFree = false
+					} else {
+						whyFree = lw
+					}
+				}
+				if differ > 0 && allFree {
+					class, why = "free", "replaced message differs from the original only in free leaves: "+whyFree
+				}
+				break
+			}
+		}
+	}
 	out = harness.Outcome{Class: sc.name + " " + class, Trace: res.trace, Stats: res.stats, Probes: res.probes, Params: rc.Params, Cells: []string{cellLabel}, Digest: fmt.Sprint(res.digest) + endsString(res.ends, c)}
 	if out.Probes == nil {
 		out.Probes = map[string]int{}
